@@ -86,6 +86,9 @@ func runC15(t *testing.T, tape *sim.Tape, tier string) *Outcome {
 		cl.YieldOn[y] = tape.Draw(4, "yield:"+y) != 0
 	}
 	cl.Sticky = tape.Draw(4, "sticky")
+	// a quarter of the runs switch on the scheduling points that the build inserts in front of every lock
+	// acquisition and sync.Map access (interleavings finer than the hand-placed yield points)
+	cl.AutoYields = tape.Draw(4, "autoyields") == 3
 	holdLate := tape.Draw(2, "holdlate") == 1
 	nops := 1 + tape.Draw(6, "nops")
 	var ops []string
